@@ -189,6 +189,8 @@ def seg_text(seg, sep):
     kind, ref = seg
     if kind == "i":
         return "[%d]" % ref
+    if ref[0] == "int":
+        return str(ref[1])
     return gen_docs.escape_key(ref[1], sep)
 
 
@@ -522,7 +524,8 @@ class Session:
         self.stats["matched"] += 1
         self.stats["last_mutator"] = "C03"
         if self.cli:
-            argv = ["-g", path] + self.cli_value(value, oper.get("format"))
+            argv = ["--change=" + path] + \
+                self.cli_value(value, oper.get("format"))
             if oper.get("mustexist", True):
                 argv.append("-m")
             self.run_cli(argv, "C03", "set " + path)
@@ -577,7 +580,8 @@ class Session:
         self.stats["matched"] += 1
         self.stats["last_mutator"] = "C04"
         if self.cli:
-            self.run_cli(["-g", path, "-D"], "C04", "delete " + path)
+            self.run_cli(["--change=" + path, "-D"], "C04",
+                         "delete " + path)
             self.cli_compare("C04", expected, "wrong-nodes-removed",
                              {"path": path, "via": "cli",
                               "matched": [render(p, "/")
@@ -710,8 +714,8 @@ class Session:
         self.stats["matched"] += 1
         self.stats["last_mutator"] = "C09"
         if self.cli:
-            self.run_cli(["-g", path] + self.cli_value(value, None), "C09",
-                         "create " + path)
+            self.run_cli(["--change=" + path] + self.cli_value(value, None),
+                         "C09", "create " + path)
         try:
             if self.cli:
                 pass
@@ -867,11 +871,14 @@ def gen_session(rng, prop, tier):
     gen = gen_docs.DocGen(
         rng, sets=rng.random() < 0.2, anchors=rng.random() < 0.65,
         nonascii=rng.random() < 0.1, mergekeys=merges, twins=0.18,
-        special=rng.random() < 0.15,
+        special=rng.random() < 0.15, intkeys=rng.random() < 0.1,
         max_nodes=rng.choice([4, 8, 14, 22, 30]),
         max_depth=rng.choice([2, 3, 4]))
     doc = gen.document()
-    flow = rng.random() < 0.08 and not gen.sets and not merges
+    # (integer keys cannot survive the JSON that yaml-set writes for a
+    # flow-style root, so such documents stay in block style)
+    flow = rng.random() < 0.08 and not gen.sets and not merges \
+        and not gen.intkeys
     text = gen_docs.to_yaml(doc, style="flow" if flow else "block",
                             start=rng.random() < 0.7)
     steps = rng.choice([1, 2, 3, 4, 6, 8, 12])
